@@ -132,6 +132,12 @@ def evaluate(prop_id, run, groups):
         d = os.path.join(run.dir, ev)
         ok, bad, log = vlib.coq_eval_cases(prop_id, terms, d, shard=shard[ev], timeout=1500,
                                            header="Local Open Scope Z_scope.", check=ev)
+        if not ok:
+            # a coqc process failed (not a mismatch): typically a concurrently running check of another property
+            # is rebuilding a shared .vo (Lib/Base).  Rebuild our cone under the lock and evaluate once more.
+            vlib.coq_build(["Corr/%s.vo" % prop_id])
+            ok, bad, log = vlib.coq_eval_cases(prop_id, terms, d, shard=shard[ev], timeout=1500,
+                                               header="Local Open Scope Z_scope.", check=ev)
         ok_all = ok_all and ok
         if log:
             logs.append(log)
@@ -156,7 +162,18 @@ def run_check(run, replay, prop_id, hname, corr_what, rule, nontrivial_rule):
         "key_ok: p, q distinct odd primes with gcd(pq, (p-1)(q-1)) = 1, p, q < 2^wP (premise of every theorem)",
         "widths_ok: 0 < wP, 8 | wP, wM = 2 wP, wC = 2 wM (the only shapes SK<C,M,P> can be instantiated with)",
     ]
-    front = vlib.standard_front(run, prop_id, gen=["Params.v"], clean=(run.tier == "thorough"),
+    if run.tier == "thorough" and not replay:
+        # re-check the property file itself from clean.  The shared files (Lib/Base, Model/Paillier*, Proofs/Paillier*,
+        # Corr/PaillierCases) are NOT deleted: C07, C08 and other properties may be running concurrently and evaluate
+        # cases against those .vo files outside the build lock; make rebuilds them whenever a source changed.
+        with vlib.Lock("coq"):
+            for f in ("Props/%s" % prop_id, "Corr/%s" % prop_id):
+                for ext in (".vo", ".vok", ".vos"):
+                    try:
+                        os.remove(os.path.join(vlib.COQ, f + ext))
+                    except OSError:
+                        pass
+    front = vlib.standard_front(run, prop_id, gen=["Params.v"], clean=False,
                                 targets=["Props/%s.vo" % prop_id, "Corr/%s.vo" % prop_id, "Proofs/PaillierBigSpec.vo"])
     if not front["harness_ok"]:
         run.violation("harness does not build against /repo", {"theorem_or_correspondence": "harness build",
